@@ -13,8 +13,9 @@ from harness.kernels import PATTERN_ALPHABET, dense_B, kernel_input, model_value
 from harness.runner import run_property
 
 PROP = "C08"
-THEOREMS = ["Lbfgsb.C08.order_sorted", "Lbfgsb.C08.order_positive", "Lbfgsb.C08.order_nodup", "Lbfgsb.C08.gcp_in_box", "Lbfgsb.C08.gcp_on_projected_path"]
-MODULES = ["LbfgsbVerif.Props.C08", "LbfgsbVerif.Props.C08Path"]
+THEOREMS = ["Lbfgsb.C08.order_sorted", "Lbfgsb.C08.order_positive", "Lbfgsb.C08.order_nodup", "Lbfgsb.C08.gcp_in_box", "Lbfgsb.C08.gcp_on_projected_path",
+            "Lbfgsb.C08.gcp_first_local_min", "Lbfgsb.C08.gcp_model_le", "Lbfgsb.C08.gcp_model_lt", "Lbfgsb.C08.gcp_model_neg", "Lbfgsb.C08.minCtx_nopairs"]
+MODULES = ["LbfgsbVerif.Props.C08", "LbfgsbVerif.Props.C08Path", "LbfgsbVerif.Props.C08Min"]
 
 
 def check_point(inp, xcp, c) -> List[Dict[str, Any]]:
@@ -52,7 +53,9 @@ def check_point(inp, xcp, c) -> List[Dict[str, Any]]:
                 break
     # auxiliary vector = projection of the displacement onto the memory basis, when some variable
     # with a non-zero gradient is still free at the Cauchy point
-    free = (t > ref["t"] * (1 + 1e-9)) & (g != 0)
+    # ("still free there" = strictly inside its bounds at the Cauchy point, as get_freev decides; this includes
+    # variables with a zero gradient component, which never move)
+    free = ((t > ref["t"] * (1 + 1e-9)) & (g != 0)) | ((xcp > lb) & (xcp < ub))
     if mats.use_factor and free.any():
         want = mats.W.T @ (xcp - x)
         if not np.allclose(c, want, rtol=0, atol=1e-7 * cond * max(1.0, float(np.max(np.abs(want))))):
@@ -66,7 +69,7 @@ def evaluate(case: Dict[str, Any]) -> Dict[str, Any]:
     pattern = None
     if case.get("pattern") is not None:
         pattern = [PATTERN_ALPHABET[k] for k in case["pattern"]]
-    inp = kernel_input(case["seed"], n=case.get("n") or (len(pattern) if pattern else None), pattern=pattern, tie=bool(case.get("tie")))
+    inp = kernel_input(case["seed"], n=case.get("n") or (len(pattern) if pattern else None), pattern=pattern, tie=bool(case.get("tie")), pinned=bool(case.get("pinned")))
     x, g, lb, ub, mats, n = inp["x"], inp["g"], inp["lb"], inp["ub"], inp["mats"], inp["n"]
     if case.get("npairs_zero"):
         from lbfgsb.bfgsmats import LBFGSB_MATRICES
@@ -79,7 +82,7 @@ def evaluate(case: Dict[str, Any]) -> Dict[str, Any]:
     res = check_point(inp, np.asarray(xcp, dtype=float), np.asarray(c, dtype=float))
     skips = [r["skip"] for r in res if "skip" in r]
     out["prop"] = [r for r in res if "skip" not in r]
-    out["tags"] += [f"tied_breakpoints={bool(case.get('tie'))}", f"n={n}", f"pairs={min(inp['npairs'], 4)}", f"at_bound_outward={bool(np.any(((x == lb) & (g > 0)) | ((x == ub) & (g < 0))))}"] + [f"skip:{s}" for s in skips]
+    out["tags"] += [f"tied_breakpoints={bool(case.get('tie'))}", f"all_moving_pinned_family={bool(case.get('pinned'))}", f"n={n}", f"pairs={min(inp['npairs'], 4)}", f"at_bound_outward={bool(np.any(((x == lb) & (g > 0)) | ((x == ub) & (g < 0))))}"] + [f"skip:{s}" for s in skips]
     # ---- Lean Float model of the routine
     if mats.use_factor:
         Minv = mats.invMfactors[0] @ mats.invMfactors[1]
@@ -100,6 +103,11 @@ def evaluate(case: Dict[str, Any]) -> Dict[str, Any]:
         diffs = []
         if mx.shape != np.shape(xcp) or float(np.max(np.abs(mx - xcp))) > tol:
             diffs.append(f"Cauchy point: implementation vs Lean model differ by {float(np.max(np.abs(mx - xcp))) if mx.shape == np.shape(xcp) else 'shape'}")
+        # the auxiliary vector, when the subspace step will use it (some variable strictly inside its bounds at x_cp)
+        if mats.use_factor and bool(((np.asarray(xcp) > lb) & (np.asarray(xcp) < ub)).any()) and mc.shape == np.shape(c):
+            ctol = 1e-7 * cond * max(1.0, float(np.max(np.abs(c))), float(np.max(np.abs(mc))))
+            if float(np.max(np.abs(mc - np.asarray(c, dtype=float)))) > ctol:
+                diffs.append(f"auxiliary vector c: implementation vs Lean model differ by {float(np.max(np.abs(mc - c)))}")
         out["corr"] = diffs
     out["nontrivial"] = f"{case['seed']}:{case.get('pattern')}"
     if case["seed"] % 211 == 0:
@@ -124,6 +132,8 @@ def run(tier: str, seed: int) -> int:
     cases += [{"seed": seed * 1_000_003 + k + i} for i in range(nrand)]
     ntie = 3000 if tier == "quick" else 60000
     cases += [{"seed": seed * 1_000_003 + 900_000 + i, "tie": True, "n": 3 + i % 4} for i in range(ntie)]
+    npin = 2000 if tier == "quick" else 30000
+    cases += [{"seed": seed * 1_000_003 + 1_900_000 + i, "pinned": True, "n": 2 + i % 5} for i in range(npin)]
     return run_property(
         PROP, "harness.props.c08", THEOREMS, MODULES, cases, tier, seed,
         rule=f"structural enumeration: every combination per variable of position (lb/ub/interior) x gradient sign (-/0/+) x bound kind "
